@@ -67,6 +67,10 @@ CHECKS = {
    technique="exhaustive enumeration of arrival/advance histories on the real IpRateLimiter under the virtual clock (volume-bound and idle-grant oracles on every history), plus the live service: volume patterns counted at the client and the full cookie matrix",
    text="Every history up to the stated depth over an alphabet derived from the limiter's own constants is executed on the real limiter; on the live service REFUSED datagrams are counted and sized at the client, and a server cookie is presented under every combination of client cookie, source address, server address, 0/1/2 key rotations and cookie length with the source's bucket emptied first, so only an exemption can produce a reply.",
    note="Single-threaded: the read-lock/write-lock window between check and deplete under a multi-threaded runtime is not explored. Rotation is lazy; a silent gap over several periods is don't-care."),
+ "C06": dict(level="model_checking", engine="E-ENUM (paused clock) + E-NET", design="5/C06",
+   technique="exhaustive enumeration of (TTL vector x elapsed time x probe key) through the real cache functions under tokio's paused clock, plus explicit event sequences (ask, advance, ask) on the live service with upstream queries counted",
+   text="For every TTL vector of the grammar the real calculate_expiry/insert/get_entry/expire are driven at 8 instants around the expiry with 7 probe keys, before and after an expiry sweep: a hit requires the same key and elapsed <= min TTL, served TTLs = original - floor(elapsed), no wrap (overflow checks on). The live part asks the same question at +0, +1.5 s and just past expiry over UDP and TCP, class IN and CH, and varies each key component.",
+   note="The hook's insert is unconditional like the private function; the 'only cache when lifetime > 0' rule is decided by the live part. Case variants of a name and the query's AD bit are don't-care."),
 }
 
 NOT_YET = {
